@@ -32,7 +32,7 @@ ASSUMPTIONS = ["floats are generated *as* decimals of <= 15 significant digits (
 
 
 def sizes(tier):
-    return {"N": 20_000, "P": 99_999, "rand": 20_000, "docs": 128, "cells": 300} if tier == "quick" else \
+    return {"N": 20_000, "P": 99_999, "rand": 20_000, "docs": 384, "cells": 300} if tier == "quick" else \
            {"N": 1_000_000, "P": 9_999_999, "rand": 2_000_000, "docs": 1536, "cells": 1500}
 
 
@@ -47,7 +47,7 @@ def rule(tier):
 def floors(tier):
     z = sizes(tier)
     return {"evaluations": z["N"] * 2, "distinct": z["N"],
-            "counters": {"codec_values": z["N"] * 2 + z["P"], "doc_cells_compared": z["docs"] * 50, "docs_saved": z["docs"] // 2,
+            "counters": {"codec_values": z["N"] * 2 + z["P"], "doc_cells_compared": z["docs"] * 50, "docs_saved": z["docs"] // 2, "docs_saved_twice": z["docs"] // 8,
                          "docs_grown_by_write": 5, "docs_multi_tile": 5, "docs_wide": 3, "package_saves": 5,
                          "contract:d128_exact.pack": z["N"], "contract:d128_exact.unpack": z["N"],
                          "type:str": 500, "type:bool": 100, "type:int": 500, "type:float": 500, "type:datetime": 300, "type:timedelta": 300}}
@@ -181,7 +181,23 @@ def doc_case(case, rec):
     pos = positions(rng, rows, cols, ncells, grow)
     written = {}
     kinds = case.get("kinds", "sbifdt")
-    for r, c, pclass in pos:
+    mid = len(pos) // 2 if case.get("resave") else -1
+    for k_, (r, c, pclass) in enumerate(pos):
+        if k_ == mid:
+            # "saving the document" is not a once-only act: an earlier save of the same open document
+            # (here with half of the cells written) must not change what the later save stores
+            pmid = os.path.join(docs.scratch_dir(), f"c01-{case['rseed']}-first.numbers")
+            try:
+                docs.save(doc, pmid, package=package)
+                rec.count("docs_saved_twice")
+            except Exception as e:  # noqa: BLE001
+                rec.violation("save_or_reopen_raised", {"exc": type(e).__name__, "shape": name, "stage": "earlier-save"}, {"msg": str(e)[:300]}, case=case)
+                return
+            finally:
+                if os.path.isdir(pmid):
+                    shutil.rmtree(pmid, ignore_errors=True)
+                elif os.path.exists(pmid):
+                    os.remove(pmid)
         v = V.rand_value(rng, kinds)
         if isinstance(v, str) and len(v) > 10000 and len(written) % 50:
             v = v[:50]
@@ -277,6 +293,8 @@ def run_docs(spec, rec):
                 "grow": rng.random() < .5 and cols <= 300, "cells": cells}
         if rng.random() < .15:
             case["kinds"] = rng.choice(["f", "i", "s", "d", "t", "if"])
+        if rng.random() < .3:
+            case["resave"] = True
         doc_case(case, rec)
         if i == 0:
             rec.sample({"document": case, "shape": SHAPES[shape][0]})
